@@ -38,7 +38,7 @@ def validate_model(ck, lo=1900, hi=2100):
     extra = [('W', y, 53) for y in range(lo, hi + 1)] + [('D', y, 366) for y in range(lo, hi + 1)]
     req = ['D %d' % n for n in days] + ['Y %d' % y for y in years] + ['P %s %d %d' % p for p in per + extra] \
         + ['I %d %d %d' % (y, w, d) for y in range(lo, hi + 1) for w in (1, 52, tc.weeks_in_year(y)) for d in (1, 7)]
-    ans = ck.driver('Time', req)
+    ans = tc.driver(ck, req)
     it = iter(ans)
     for n in days:
         a = next(it); d = dt.date.fromordinal(n); iso = d.isocalendar()
@@ -93,7 +93,7 @@ def macro_shift(ck, con, info, per, state):
                      {'macro': 'vtl_tp_shift', 'period': tc.canon(i, y, n), 'shift': k, 'got': r}, 'vtl_tp_shift(%s, %d) = %r' % (tc.canon(i, y, n), k, r))
     sql = {(i, y, n): s for i, y, n, s in con.execute(
         "SELECT i, y, n, string_agg(ry || ':' || rn, ' ' ORDER BY k) FROM T2 GROUP BY i, y, n").fetchall()}
-    ans = ck.driver('Time', ['S %s %d %d -60 60' % p for p in per])
+    ans = tc.driver(ck, ['S %s %d %d -60 60' % p for p in per])
     n_eval = 0
     model_ok = {i: True for i in tc.INDS}
     first_model_diff = {}
@@ -153,7 +153,7 @@ def macro_shift(ck, con, info, per, state):
 
 def macro_dates(ck, con, per, state):
     """start/end date, getmonth, dayofmonth, dayofyear: SQL vs Lean vs Python datetime, every period."""
-    ans = ck.driver('Time', ['P %s %d %d' % p for p in per])
+    ans = tc.driver(ck, ['P %s %d %d' % p for p in per])
     P = "(SELECT i, y, n, {'year': y, 'period_indicator': i, 'period_number': n}::vtl_time_period AS p FROM P)"
     cols = {}
     for name in ('vtl_tp_start_date', 'vtl_tp_end_date', 'vtl_tp_getmonth', 'vtl_tp_dayofmonth', 'vtl_tp_dayofyear'):
@@ -197,7 +197,7 @@ def macro_agg(ck, con, per, state):
     rows = con.execute("SELECT i, y, n, t, vtl_time_agg_tp({'year': y, 'period_indicator': i, 'period_number': n}::vtl_time_period, t) "
                        "FROM P, TG WHERE rk >= CASE i WHEN 'A' THEN 6 WHEN 'S' THEN 5 WHEN 'Q' THEN 4 WHEN 'M' THEN 3 WHEN 'W' THEN 2 ELSE 1 END").fetchall()
     req = ['G %s %d %d %s' % (i, y, n, t) for i, y, n, t, _ in rows]
-    ans = ck.driver('Time', req)
+    ans = tc.driver(ck, req)
     seen = set()
     for (i, y, n, t, got), a in zip(rows, ans):
         ex = tc.canon(t, *map(int, a.split())) if a != 'err' else 'err'
@@ -233,7 +233,7 @@ def macro_misc(ck, con, per, state, n_pairs):
     con.register('_q', pd.DataFrame([(a[0], a[1], a[2], b[0], b[1], b[2]) for a, b in pairs], columns=['i', 'y', 'n', 'j', 'y2', 'n2']))
     got = con.execute("SELECT vtl_tp_datediff({'year': y, 'period_indicator': i, 'period_number': n}::vtl_time_period, "
                       "{'year': y2, 'period_indicator': j, 'period_number': n2}::vtl_time_period) FROM _q").fetchall()
-    ans = ck.driver('Time', ['F %s %d %d %s %d %d' % (a + b) for a, b in pairs])
+    ans = tc.driver(ck, ['F %s %d %d %s %d %d' % (a + b) for a, b in pairs])
     for (a, b), (g,), l in zip(pairs, got, ans):
         ex = abs((tc.start_end(*a)[1] - tc.start_end(*b)[1]).days)
         if int(l) != ex: state['model_bad'].append(('datediff', (a, b), l, ex))
@@ -247,7 +247,7 @@ def macro_misc(ck, con, per, state, n_pairs):
               for k in (-13, -12, -1, 1, 11, 12, 48) for j in 'MQSA']
     con.register('_d', pd.DataFrame([(str(d), k, j) for d, k, j in cases], columns=['d', 'k', 'j']))
     got = con.execute("SELECT CAST(vtl_dateadd(CAST(d AS DATE), CAST(k AS INTEGER), j) AS DATE) FROM _d").fetchall()
-    ans = ck.driver('Time', ['A %d %d %d %d %s' % (d.year, d.month, d.day, k, j) for d, k, j in cases])
+    ans = tc.driver(ck, ['A %d %d %d %d %s' % (d.year, d.month, d.day, k, j) for d, k, j in cases])
     for (d, k, j), (g,), l in zip(cases, got, ans):
         y, m, dd = map(int, l.split())
         if g != dt.date(y, m, dd):
@@ -257,7 +257,7 @@ def macro_misc(ck, con, per, state, n_pairs):
     pc = [(rng.choice(per), rng.randint(-30, 30), rng.choice(tc.INDS)) for _ in range(n_pairs // 2)]
     con.register('_e', pd.DataFrame([(p[0], p[1], p[2], k, j) for p, k, j in pc], columns=['i', 'y', 'n', 'k', 'j']))
     got = con.execute("SELECT CAST(vtl_tp_dateadd({'year': y, 'period_indicator': i, 'period_number': n}::vtl_time_period, CAST(k AS INTEGER), j) AS DATE) FROM _e").fetchall()
-    ans = ck.driver('Time', ['AP %s %d %d %d %s' % (p + (k, j)) for p, k, j in pc])
+    ans = tc.driver(ck, ['AP %s %d %d %d %s' % (p + (k, j)) for p, k, j in pc])
     for (p, k, j), (g,), l in zip(pc, got, ans):
         y, m, dd = map(int, l.split())
         if g != dt.date(y, m, dd):
@@ -270,7 +270,7 @@ def macro_misc(ck, con, per, state, n_pairs):
 def e2e(ck, info, n_cases, state):
     import time_e2e
     ops = [o for o in time_e2e.OPS if o != 'format_roundtrip']      # the output formats are C21's
-    ds = time_e2e.run_e2e(ck, ck.rng, n_cases, years=tc.BOUNDARY_YEARS, ops=ops)
+    ds = time_e2e.run_e2e(tc.DriverProxy(ck), ck.rng, n_cases, years=tc.BOUNDARY_YEARS, ops=ops)
     hist = {}
     for d in ds:
         op, i, pred = d['op'], d['ind'], d['predicate']
@@ -317,14 +317,14 @@ def replay(ck):
     print('replaying', json.dumps(r, default=str)[:400])
     if 'case' in r:
         import time_e2e
-        ds = time_e2e.run_e2e(ck, ck.rng, 0, cases=[r['case']])
+        ds = time_e2e.run_e2e(tc.DriverProxy(ck), ck.rng, 0, cases=[r['case']])
         for d in ds: print('  still disagrees:', d['op'], d['predicate'], d['input'], d['got'], d['expected'])
         sys.exit(1 if ds else 0)
     con = tc.connect()
     if r.get('macro') == 'vtl_tp_shift' and 'period' in r and 'shift' in r:
         i, y, n = tc.parse_canon(r['period'])
         got = con.execute("SELECT vtl_tp_shift({'year': %d, 'period_indicator': '%s', 'period_number': %d}::vtl_time_period, %d)" % (y, i, n, r['shift'])).fetchone()[0]
-        spec = ck.driver('Time', ['S %s %d %d %d %d' % (i, y, n, r['shift'], r['shift'])])[0].split('|')[0].strip()
+        spec = tc.driver(ck, ['S %s %d %d %d %d' % (i, y, n, r['shift'], r['shift'])])[0].split('|')[0].strip()
         print('  macro gives %s, the calendar says %s' % (got, spec))
         g = tc.parse_canon(got)
         sys.exit(0 if g and '%d:%d' % (g[1], g[2]) == spec else 1)
